@@ -98,16 +98,18 @@ pub struct DocOpts {
     /// do not generate `<annotation-xml encoding=text/html>` integration points (html5ever 0.39
     /// omits annotation-xml from its scope-boundary set, so it is not a usable reference there)
     pub no_annotation_xml: bool,
+    /// never emit ESI tag names (for oracles that know nothing about ESI: html5ever)
+    pub no_esi: bool,
 }
 
 impl Default for DocOpts {
     fn default() -> Self {
-        DocOpts { max_items: 14, max_depth: 5, islands: true, rawtext: true, misnest: true, comments: true, doctype: true, multibyte: true, odd_attrs: true, max_attrs: 4, small_vocab: true, lt_in_text: false, enc: encoding_rs::UTF_8, amp_safe: false, no_annotation_xml: false }
+        DocOpts { max_items: 14, max_depth: 5, islands: true, rawtext: true, misnest: true, comments: true, doctype: true, multibyte: true, odd_attrs: true, max_attrs: 4, small_vocab: true, lt_in_text: false, enc: encoding_rs::UTF_8, amp_safe: false, no_annotation_xml: false, no_esi: false }
     }
 }
 
-pub const HTML_NAMES: &[&str] = &["div", "span", "p", "b", "a", "li", "ul", "h1", "section", "i", "custom-element", "averyveryverylongtagname", "x1", "DIV", "Span", "em", "td", "custom-elements", "averyveryverylongtagnam", "di", "divv"];
-pub const VOID_NAMES: &[&str] = &["br", "img", "input", "hr", "wbr", "meta", "link", "col", "embed", "area", "base", "source", "track", "param", "keygen", "basefont", "bgsound", "BR", "Img"];
+pub const HTML_NAMES: &[&str] = &["div", "span", "p", "b", "a", "li", "ul", "h1", "section", "i", "custom-element", "averyveryverylongtagname", "x1", "DIV", "Span", "em", "td", "custom-elements", "averyveryverylongtagnam", "di", "divv", "esi:include", "esi:comment", "esi:remove"];
+pub const VOID_NAMES: &[&str] = &["br", "img", "input", "hr", "wbr", "meta", "link", "col", "embed", "area", "base", "source", "track", "param", "keygen", "basefont", "bgsound", "BR", "Img", "esi:include", "esi:comment"];
 pub const RAW_NAMES: &[(&str, &str)] = &[
     ("script", "ScriptData"), ("style", "RawText"), ("title", "RCData"), ("textarea", "RCData"), ("xmp", "RawText"), ("iframe", "RawText"), ("noembed", "RawText"), ("noframes", "RawText"), ("noscript", "RawText"), ("STYLE", "RawText"), ("Title", "RCData"),
 ];
@@ -223,6 +225,10 @@ impl<'a, 't> Gen<'a, 't> {
         let start = self.pos();
         self.push(s);
         self.d.toks.push(Tok { kind: TK::Doctype, start, end: self.pos(), name: s.to_string(), ns: Ns::Html, text_type: "", name_end: 0, island: self.island_depth > 0 });
+    }
+
+    fn no_esi(&self, name: &'static str, instead: &'static str) -> &'static str {
+        if self.o.no_esi && name.starts_with("esi:") { instead } else { name }
     }
 
     fn attrs_text(&mut self, forced: &[(&str, &str)]) -> String {
@@ -396,7 +402,8 @@ impl<'a, 't> Gen<'a, 't> {
             ]);
             match k {
                 0 => {
-                    let mut name = *self.t.pick(HTML_NAMES);
+                    let picked = *self.t.pick(HTML_NAMES);
+                    let mut name = self.no_esi(picked, "div");
                     if let Some(x) = exclude_name {
                         if name.eq_ignore_ascii_case(x) {
                             name = "div";
@@ -426,7 +433,8 @@ impl<'a, 't> Gen<'a, 't> {
                 }
                 1 => self.text(Ns::Html),
                 2 => {
-                    let name = *self.t.pick(VOID_NAMES);
+                    let picked = *self.t.pick(VOID_NAMES);
+                    let name = self.no_esi(picked, "br");
                     self.start_tag(name, Ns::Html, &[], true, false);
                 }
                 3 => self.comment(Ns::Html),
@@ -434,7 +442,8 @@ impl<'a, 't> Gen<'a, 't> {
                 5 => self.island(depth + 1),
                 6 => {
                     self.d.has_misnest = true;
-                    let name = *self.t.pick(HTML_NAMES);
+                    let picked = *self.t.pick(HTML_NAMES);
+                    let name = self.no_esi(picked, "div");
                     self.end_tag(name, Ns::Html);
                 }
                 _ => self.doctype(),
